@@ -568,7 +568,7 @@ int Main(int argc, char** argv, Engine& e) {
       for (uint64_t r = startRun; r < a.firstRun + totalRuns; r += static_cast<uint64_t>(W)) {
         if (NowS() - t0 > maxSecs) break;
         oneRun(r, false);
-        if (++sinceFlush >= 100) { flush(false); sinceFlush = 0; }
+        if (++sinceFlush >= 20) { flush(false); sinceFlush = 0; }
       }
       // determinism re-check: re-execute a 2 % sample of the neighbour worker's runs in this process
       if (W > 1 && startRun < a.firstRun + static_cast<uint64_t>(W)) {
@@ -653,7 +653,9 @@ int Main(int argc, char** argv, Engine& e) {
             crashedRuns.push_back(static_cast<uint64_t>(ctl.current));
             if (WIFEXITED(status) && WEXITSTATUS(status) == 79) watchdogRuns.insert(static_cast<uint64_t>(ctl.current));
             const uint64_t next = static_cast<uint64_t>(ctl.current) + static_cast<uint64_t>(W);
-            if (next < a.firstRun + totalRuns && NowS() - t0 < maxSecs && crashedRuns.size() < 200) { spawn(w, next, ctl); ++live; }
+            // benign watchdog stops (resource exhaustion inside an evaluation) do not count towards the give-up limit
+            size_t hard = 0; for (auto r : crashedRuns) if (!(watchdogTag.count(r) && watchdogTag[r] == "evaluation")) ++hard;
+            if (next < a.firstRun + totalRuns && NowS() - t0 < maxSecs && hard < 200) { spawn(w, next, ctl); ++live; }
           } else if (!WIFEXITED(status) || WEXITSTATUS(status) != 0) {
             fprintf(stderr, "worker %d died outside a run (status %d)\n", w, status);
           }
